@@ -770,6 +770,7 @@ struct Executor {
         bool dup = sc.got[esi] != 0;
         if (dup) count("duplicate_deliveries"); else count("deliveries");
         if (sc.complete_seen) count("deliveries_after_completion");
+        if (sc.finish_called) count("deliveries_after_finish");
         if (esi < sc.k && !sc.got[esi] && !sc.avail[esi]) {
             // "submitted while still unknown": for large blocks avail[] is only refreshed every 64th call, so the
             // pointer-identity obligation is recorded only when the symbol cannot have been decoded yet
@@ -856,11 +857,12 @@ struct Executor {
         cb_target = nullptr;
         status_done(); res.lib_calls++;
         sc.finish_called = true; sc.finish_status = st;
-        if (!rs) sc.finalised = true;              // LDPC/2D: finish is final (it consumes the matrix)
+        if (!rs) sc.finalised = true;              // LDPC/2D: finish is the final decoding attempt (it consumes the matrix)...
         count(std::string("finish_calls:") + cn(sc));
         observe_decoder(sc, "FINISH", -1, st, false);
         check_app_memory(sc, true);
         bool complete = sc.complete_seen;
+        if (!rs && complete && st == 0) sc.finalised = false;   // ...but packets still in flight may reach a decoded block: late symbols stay legal
         const char *ps = twod ? "C16" : "C10";
         std::string pre = before ? ":pre=complete" : ":pre=incomplete";
         if (st == 0 && !complete) viol({ps}, "status", std::string("finish-ok-but-incomplete:codec=") + cn(sc), "", &sc);
